@@ -110,6 +110,55 @@ theorem matched_ge_sum_displayed {α : Type} [DecidableEq α] (cls : α → Pipe
     s.consumed.length ≤ s.nMatched :=
   Pipeline.matched_ge_consumed (Pipeline.inv_reach (Pipeline.inv_init cls B K inputs W) hr)
 
+/-- **Final output reflects all matches – of the INPUT** (pipeline ∘ aggregation loop).  Composition at the seam
+    `readChan`: the pipeline's consumer IS the loop's main goroutine, so the batches the loop receives (`stream`)
+    are, concatenated, what the pipeline model's consumer holds when it has seen the channel closed (`hseam`; on
+    real runs the `atrace` op checks exactly this equation between the two halves of one event log).  Then, for
+    every schedule of readers, workers, main and ticker, every batch size, every channel capacity: the last render
+    shows a permutation of the matched lines of a sequential pass over the input – so for count-style aggregation
+    by any key function the final per-key counts are the sequential counts – and the matched total shown next to it
+    is the number of those lines. -/
+theorem final_render_reflects_input {α : Type} [DecidableEq α] (cls : α → Pipeline.Cls) (R B K W : Nat) (hW : 1 ≤ W)
+    (inputs : List (List (List α))) {ps : Pipeline.St α}
+    (hp : Pipeline.Reach cls R B K (Pipeline.init inputs W) ps) (hd : ps.consDone = true)
+    (stream : List (List α)) (hseam : stream.flatten = ps.consumed)
+    {s : St α} (hr : Reach (init stream) s) (hm : s.main = .finished) :
+    ∃ r, s.renders.getLast? = some r ∧
+      r.Perm ((inputs.flatMap List.flatten).filter (Pipeline.isMatched cls)) ∧
+      r.length = ps.nMatched ∧
+      ∀ {κ' : Type} [DecidableEq κ'] (key : α → κ') (k : κ'),
+        (r.map key).count k = (((inputs.flatMap List.flatten).filter (Pipeline.isMatched cls)).map key).count k := by
+  have hinv := Pipeline.inv_reach (Pipeline.inv_init cls B K inputs W) hp
+  have hne : ps.workers ≠ [] := by
+    intro h
+    have hlen := Pipeline.reach_workers_length hp
+    rw [h] at hlen; simp [Pipeline.init] at hlen; omega
+  have hfin := Pipeline.final_state hinv hne hd
+  have hperm : stream.flatten.Perm ((inputs.flatMap List.flatten).filter (Pipeline.isMatched cls)) := by
+    rw [hseam]; exact List.perm_iff_count.mpr hfin.1
+  refine ⟨stream.flatten, final_render_sees_all stream hr hm, hperm, ?_, ?_⟩
+  · rw [hperm.length_eq]; exact hfin.2.2.1.symm
+  · intro κ' _ key k
+    exact (hperm.map key).count_eq k
+
+/-- Non-vacuity of `final_render_reflects_input`: one source with the two lines 1 (matched) and 2 (unmatched) in one
+    batch, one worker; the pipeline run to the end, the loop run to the end on the one batch it receives. -/
+example : ∃ (ps : Pipeline.St Nat) (s : St Nat),
+    Pipeline.Reach (fun x => if x = 1 then .matched else .unmatched) 1 1 1 (Pipeline.init [[[1, 2]]] 1) ps ∧
+    ps.consDone = true ∧ [[1]].flatten = ps.consumed ∧ Reach (init [[1]]) s ∧ s.main = .finished := by
+  have hp : Pipeline.Reach (fun x => if x = 1 then Pipeline.Cls.matched else .unmatched) 1 1 1 (Pipeline.init [[[(1 : Nat), 2]]] 1) _ :=
+    .step (.step (.step (.step (.step (.step (.step (.step (.step (.step (.step (.step .refl
+      (.start _ 0 [[1, 2]] rfl (by decide))) (.send _ 0 [1, 2] [] rfl (by decide))) (.finish _ 0 rfl))
+      (.closeC _ rfl rfl)) (.wrecv _ 0 [1, 2] [] rfl rfl)) (.wproc _ 0 1 [2] [] rfl)) (.wproc _ 0 2 [] _ rfl))
+      (.wsend _ 0 [1] rfl (by decide) (by decide))) (.wexit _ 0 rfl rfl rfl)) (.closeRC _ rfl rfl))
+      (.crecv _ [1] [] rfl rfl)) (.cdone _ rfl rfl rfl)
+  have hr : Reach (init [[(1 : Nat)]]) _ :=
+    .step (.step (.step (.step (.step (.step (.step (.step (.step (.refl (s0 := init [[(1 : Nat)]]))
+    (.arrive _ [1] [] rfl)) (.close _ rfl rfl)) (.recv _ [1] [] rfl rfl)) (.mlock _ [1] rfl rfl))
+    (.sample _ 1 [] rfl)) (.munlock _ rfl)) (.eof _ rfl rfl rfl))
+    (.handshake _ rfl rfl)) (.final _ rfl)
+  exact ⟨_, _, hp, rfl, rfl, hr, rfl⟩
+
 /-! ## The signal path: Ctrl-C / SIGINT
 
 `RunAggregationLoop` registers `signal.Notify(exitSignal, os.Interrupt)` and its processing loop selects between
